@@ -1,7 +1,7 @@
 (* The positions in which the typechecker decides whether a value of one type may be supplied where
    another is required (src/parser/typechecker/typechecker.go): VisitVarDecl (125-146),
    VisitAssignStmt (716-733), VisitCastExpr (513-587, without user-declared cast overloads) and
-   VisitCastAssigneable (589-596).  `true` = no diagnostic is issued.  Definitions only. *)
+   VisitCastAssigneable (589-607).  `true` = no diagnostic is issued.  Definitions only. *)
 From Coq Require Import List NArith Bool.
 Import ListNotations.
 From DDP Require Import Types.Ty.
@@ -53,6 +53,15 @@ Definition cast_ok (lhs target : ty) : bool :=
               end
        end.
 
-(* VisitCastAssigneable: `x als target` where a reference / assignment target is expected *)
+(* VisitCastAssigneable: `x als target` where a reference / assignment target is expected
+     valid := Equal(TrueUnderlying(lhs), TrueUnderlying(target))
+     if valid && (isTargetTypeDef || isLhsTypeDef) && !Equal(lhs, target) {
+        valid = (isTargetTypeDef && Equal(lhs, targetTypeDef.Underlying)) || (isLhsTypeDef && Equal(target, lhsTypeDef.Underlying)) } *)
 Definition cast_assignable_ok (lhs target : ty) : bool :=
-  equal (true_underlying lhs) (true_underlying target).
+  let valid := equal (true_underlying lhs) (true_underlying target) in
+  let td := cast_type_def target in
+  let ld := cast_type_def lhs in
+  let is_some (o : option ty) := match o with Some _ => true | None => false end in
+  if valid && (is_some td || is_some ld) && negb (equal lhs target)
+  then (match td with Some tu => equal lhs tu | None => false end) || (match ld with Some lu => equal target lu | None => false end)
+  else valid.
